@@ -145,7 +145,8 @@ REGISTRY.update({
                 theorems=["C19_step_equivariant_holds", "C19_shift_holds"],
                 corr=["sched.status", "rec.status", "overprod", "phase.overprod", "phase.alpha_kept"] + STEP_OBS, monitors=[], extra=X.extra_c19),
     "C20": dict(**_p(EV_FILES + RUN_FILES + ["Spec/StatementsWF.v", "Spec/StatementsInit.v", "Proofs/C20Aux.v", "Proofs/C20Proofs.v",
-                                          "Proofs/C20InitProofs.v"], ["Props/C20.v"], ["Divide"]),
+                                          "Proofs/C20InitProofs.v", "Proofs/C10SessionProofs.v", "Proofs/C16Proofs.v",
+                                          "Spec/StatementsLate.v", "Proofs/C10LateRunProofs.v", "Proofs/NonVacuity.v"], ["Props/C20.v"], ["Divide"]),
                 theorems=["C20_wf_step_holds", "C20_wf_run_holds", "C20_obs_holds", "C20_wf_create_holds", "C20_wf_create_all_holds",
                           "C20_wf_init_holds", "C20_builtin_rf_holds", "C20_accepted_run_holds"],
                 corr=ECON_OBS + INIT_OBS + ["delta.total", "reb.ledger_i", "reb.ledger_h", "rec.dmg", "rec.arb"] + CREATE_OBS,
